@@ -67,7 +67,18 @@ Bug 2 - an *interaction* bug: the change is harmless for every feature, entry, f
   - for generated mocks: a *sequence* of uses (call, reset, call; an expectation set twice; Once/Times/Maybe/Unset followed by more calls; sequential use after concurrent use; a mock shared by two tests).
 
 Both bugs must read like a refactor, clean-up or small optimisation that a reviewer would wave through, must leave the build and the existing suite green, and must need a specific input, configuration, sequence or interleaving to show. The source files most relevant to this property are: {anchors} (the bug itself may live elsewhere, e.g. in a helper those files call)."""
+GUIDANCE8 = """Seven earlier rounds have used up the bugs that make the tool fail, crash, or write files that do not compile. This round asks for two *quiet* kinds, one bug of each; say in README.md which is which.
+
+Bug 1 - a silent wrong value. The tool exits 0, every written file parses and compiles, generated mocks link and run - and yet something the property constrains is subtly wrong: the wrong element of several (first instead of matching, previous iteration's instead of this one's), an order that is reversed or unstable only for equal keys, an index or count off by one, a zero value / empty string / default where configured data should be, a value taken from the neighbouring level, entry, parameter, method or file, a message or name that mentions the wrong thing, a record that aliases caller memory, a comparison that is true for one more or one fewer case. Prefer a site where the wrong value is *plausible* (a reviewer reading the output would not blink).
+
+Bug 2 - a boundary or environment bug that needs an unusual but legal situation: sizes exactly at a power of two or at a buffer size (8, 9, 64, 65, 4096, 65536 items / bytes / parameters / methods / nesting levels); names or paths with spaces, dots, dashes, underscores, leading digits, Unicode, a trailing separator, `..` segments, or equal prefixes; read-only or missing directories, unusual umask or file modes, files that are symlinks / FIFOs / empty / huge / without trailing newline / with CRLF or a BOM; HOME, PWD, GOFLAGS, GOWORK, TMPDIR or MOCKERY_* set to unusual values; the working directory being the file-system root of the module, a sub-directory, or outside the module; two runs at the same time.
+
+Both bugs must read like a refactor, clean-up or small optimisation that a reviewer would wave through, must leave the build and the existing suite green, and must need a specific input, configuration, sequence or interleaving to show. The source files most relevant to this property are: {anchors} (the bug itself may live elsewhere, e.g. in a helper those files call)."""
 suffix = sys.argv[1]
+if suffix.startswith("8"):
+    a = T.index("## Additional guidance for this round")
+    b = T.index("## Environment facts")
+    T = T[:a] + "## Additional guidance for this round\n\n{guidance5}\n\n" + T[b:]
 if suffix.startswith("7"):
     a = T.index("## Additional guidance for this round")
     b = T.index("## Environment facts")
@@ -89,6 +100,10 @@ for pid in (sys.argv[2:] or sorted(props)):
         if suffix.startswith("6"):   # the families not offered to this property in round 5
             fam = [(k * 7 + 3) % 20, (k * 7 + 8) % 20, (k * 7 + 13) % 20, (k * 7 + 18) % 20]
         extra["guidance5"] = GUIDANCE5.format(assigned="\n".join("  - " + MENU[f] for f in fam), anchors=', '.join(p['anchors']['files']))
+    if suffix.startswith("8"):   # the twelve families offered to this property in rounds 5-7 are named as used up
+        k = int(pid[1:])
+        fam = sorted(set((k * 7 + o) % 20 for o in (0, 5, 11, 16, 3, 8, 13, 18, 1, 6, 12, 17)))
+        extra["guidance5"] = GUIDANCE8.format(assigned="; ".join(MENU[f].split(":")[0].split(" (")[0] for f in fam), anchors=', '.join(p['anchors']['files']))
     if suffix.startswith("7"):   # four families not offered to this property in rounds 5 and 6
         k = int(pid[1:])
         fam = [(k * 7 + 1) % 20, (k * 7 + 6) % 20, (k * 7 + 12) % 20, (k * 7 + 17) % 20]
